@@ -290,6 +290,10 @@ pub fn run() {
     }
     let mut rep = Reporter::new("C34", args.seed);
     if let Some(case) = args.replay_case() {
+        // a replay descriptor of another stage / another test of this property: not ours, nothing to do
+        if case["engine"].as_str() != Some("hv_sim_b") || case["test"].as_str() != Some("c34_atomic_sim") {
+            return;
+        }
         let flow = case["flow"].as_str().unwrap_or("");
         let e = match NAMES.iter().position(|n| *n == flow).unwrap_or(0) {
             0 => replay::<Svc<0>>("C34", TEST, &case),
